@@ -3,8 +3,8 @@ import RaftProofs.ProtoLStep
 /-!
 # C05 — log matching; leaders append-only; committed prefix immutable
 
-Theorems about the abstract protocol P, for every reachable state of every history under a fixed
-(possibly joint) configuration with at least one voter: any number of nodes, any schedule, message
+Theorems about the abstract protocol P, for every reachable state of every history (the voter
+configuration may change along it): any number of nodes, any schedule, message
 loss / duplication / reordering (monotone released-message sets), crash at any point and restart from
 the durable image — including a leader that crashes after sending entries it had not persisted, and
 stale appends from successive leaders (any released append of any term may be delivered at any
@@ -21,26 +21,26 @@ open RaftModel.P
 
 /-- **Log Matching** (volatile logs, i.e. including entries not yet persisted): if the logs of two
 nodes hold an entry with the same index and term, the logs are identical up to that index. -/
-theorem C05_logMatching (c0 : Cfg) (hne : c0.incoming ≠ [] ∨ c0.outgoing ≠ []) (s : PSys)
-    (hr : ReachC c0 s) (a b k : Nat) (x y : LEntry)
+theorem C05_logMatching (s : PSys)
+    (hr : Reach s) (a b k : Nat) (x y : LEntry)
     (hx : (s.nodes a).log[k]? = some x) (hy : (s.nodes b).log[k]? = some y) (ht : x.term = y.term) :
     (s.nodes a).log.take (k + 1) = (s.nodes b).log.take (k + 1) :=
-  logMatching_of_invL (invL_reach c0 hne s hr) _ _ (listsOf_log s a) (listsOf_log s b) k x y hx hy ht
+  logMatching_of_invL (invL_reachR s hr) _ _ (listsOf_log s a) (listsOf_log s b) k x y hx hy ht
 
 /-- the same between any two lists of entries that exist anywhere: volatile logs, durable logs,
 pending images, acknowledged prefixes, snapshots, ghost leader logs -/
-theorem C05_logMatching_all (c0 : Cfg) (hne : c0.incoming ≠ [] ∨ c0.outgoing ≠ []) (s : PSys)
-    (hr : ReachC c0 s) (l1 l2 : List LEntry) (h1 : listsOf s l1) (h2 : listsOf s l2) (k : Nat)
+theorem C05_logMatching_all (s : PSys)
+    (hr : Reach s) (l1 l2 : List LEntry) (h1 : listsOf s l1) (h2 : listsOf s l2) (k : Nat)
     (x y : LEntry) (hx : l1[k]? = some x) (hy : l2[k]? = some y) (ht : x.term = y.term) :
     l1.take (k + 1) = l2.take (k + 1) :=
-  logMatching_of_invL (invL_reach c0 hne s hr) l1 l2 h1 h2 k x y hx hy ht
+  logMatching_of_invL (invL_reachR s hr) l1 l2 h1 h2 k x y hx hy ht
 
 /-- in particular an entry is determined by its index and term -/
-theorem C05_entry_determined (c0 : Cfg) (hne : c0.incoming ≠ [] ∨ c0.outgoing ≠ []) (s : PSys)
-    (hr : ReachC c0 s) (a b k : Nat) (x y : LEntry)
+theorem C05_entry_determined (s : PSys)
+    (hr : Reach s) (a b k : Nat) (x y : LEntry)
     (hx : (s.nodes a).log[k]? = some x) (hy : (s.nodes b).log[k]? = some y) (ht : x.term = y.term) :
     x = y := by
-  have h := C05_logMatching c0 hne s hr a b k x y hx hy ht
+  have h := C05_logMatching s hr a b k x y hx hy ht
   have h1 : ((s.nodes a).log.take (k + 1))[k]? = some x := by rw [List.getElem?_take]; simp [hx]
   have h2 : ((s.nodes b).log.take (k + 1))[k]? = some y := by rw [List.getElem?_take]; simp [hy]
   rw [h] at h1
@@ -48,21 +48,21 @@ theorem C05_entry_determined (c0 : Cfg) (hne : c0.incoming ≠ [] ∨ c0.outgoin
   exact Option.some.inj h2
 
 /-- every released append is a slice of the log of the leader of its term, anchored in it -/
-theorem C05_append_is_leader_slice (c0 : Cfg) (hne : c0.incoming ≠ [] ∨ c0.outgoing ≠ []) (s : PSys)
-    (hr : ReachC c0 s) (m : App) (hm : m ∈ s.apps) :
+theorem C05_append_is_leader_slice (s : PSys)
+    (hr : Reach s) (m : App) (hm : m ∈ s.apps) :
     m.prev + m.es.length ≤ (s.llog m.term).length ∧
     m.es = ((s.llog m.term).drop m.prev).take m.es.length ∧
     m.prevTerm = termAt (s.llog m.term) m.prev := by
-  have := (invL_reach c0 hne s hr).msg m hm
+  have := (invL_reachR s hr).msg m hm
   exact ⟨this.len, this.slice, this.anchor⟩
 
 /-- a leader's log is the ghost log of its term, and entries carry positive terms not above the
 term of the log that holds them -/
-theorem C05_leader_log (c0 : Cfg) (hne : c0.incoming ≠ [] ∨ c0.outgoing ≠ []) (s : PSys)
-    (hr : ReachC c0 s) (i : Nat) :
+theorem C05_leader_log (s : PSys)
+    (hr : Reach s) (i : Nat) :
     ((s.nodes i).role = 2 → (s.nodes i).log = s.llog (s.nodes i).term) ∧
     (∀ e ∈ (s.nodes i).log, 1 ≤ e.term ∧ e.term ≤ (s.nodes i).term) := by
-  have I := invL_reach c0 hne s hr
+  have I := invL_reachR s hr
   refine ⟨I.ll i, fun e he => ⟨pfl_term_pos I (keep_log s I i) he, (I.tle i).1 e he⟩⟩
 
 /-- **Leaders are append-only**: whatever happens, as long as a node is in the leader role before
